@@ -36,6 +36,7 @@ type World struct {
 	Repo   string
 	effMemo map[*types.Func]*Effects
 	effBusy map[*types.Func]bool
+	skipTerminating *ast.BlockStmt
 }
 
 func funcShort(fd *ast.FuncDecl) string {
